@@ -104,6 +104,29 @@ def contracts():
     ensures r == (match self.global {{ Some(g) => g.{f}, None => None }}), //@C13.{f}_from_global
 """)
     # ---- hook / group resolution (C10 order, C14 unresolved reference, C19 termination)
+    from schedule import ENV_IDIOMS
+    c["dispatch_global_env_vars"] = FnSpec(sig="""
+    ensures
+        // the global environment reaches every certificate, and a certificate's own variables win over the global ones
+        final(config).certificate@.len() == old(config).certificate@.len(),
+        forall|i: int| 0 <= i < old(config).certificate@.len() ==> crate::venv::envmap((#[trigger] final(config).certificate@[i]).env)
+            =~= global_env_of(*old(config)).union_prefer_right(crate::venv::envmap(old(config).certificate@[i].env)), //@C10.env_certificate_over_global
+        final(config).global == old(config).global,
+""", loops={r"\.certificate\.iter_mut\(\)": """
+    invariant n__ == config.certificate@.len(), i__ <= n__, config.certificate@.len() == old(config).certificate@.len(),
+        config.global == old(config).global, glob.env == old(config).global.unwrap().env, crate::venv::envmap(glob.env).len() > 0 || true,
+        forall|j: int| 0 <= j < i__ ==> crate::venv::envmap((#[trigger] config.certificate@[j]).env)
+            =~= crate::venv::envmap(glob.env).union_prefer_right(crate::venv::envmap(old(config).certificate@[j].env)), //@C10.env_certificate_over_global
+        forall|j: int| i__ <= j < n__ ==> config.certificate@[j] == old(config).certificate@[j],
+    decreases n__ - i__,
+"""}, at=[("loop_start", None, r"\.certificate\.iter_mut\(\)", "let cert = &mut config.certificate[i__];", "T-ITER"),
+          ("loop_end", None, r"\.certificate\.iter_mut\(\)", "i__ += 1;", "T-ITER")],
+        rewrites=[("T-ITER", r"for (?P<c>\w+) in config\.certificate\.iter_mut\(\)", "let n__ = config.certificate.len(); let mut i__: usize = 0; while i__ < n__", 1),
+                  # `for (k, v) in B.iter() { A.insert(k.to_string(), v.to_string()); }`: B's entries are put into A one by one (B's override A's)
+                  ("T-MAP", r"for \((?P<k>\w+), (?P<v>\w+)\) in (?P<b>[\w.]+)\.iter\(\) \{\s*(?P<a>\w+)\.insert\((?P=k)\.(?:to_string|to_owned|clone)\(\), (?P=v)\.(?:to_string|to_owned|clone)\(\)\);\s*\}",
+                   lambda m: f"crate::venv::extend_from(&mut {m.group('a')}, &{m.group('b')});", None),
+                  ("T-MAP", r"(?P<b>glob\.env)\.clone\(\)", lambda m: f"crate::venv::clone_map(&{m.group('b')})", None),
+                  ("T-MAP", r"(?P<b>glob\.env|cert\.env)\.is_empty\(\)", lambda m: f"crate::venv::map_is_empty(&{m.group('b')})", None)] + ENV_IDIOMS)
     c["get_stdin"] = FnSpec(ret="r", sig="""
     ensures
         // a hook's standard input is the configured file, or the configured text, or nothing; configuring both is an error
@@ -265,7 +288,7 @@ def contracts():
 
 def build():
     u = Unit("config", "acmed")
-    u.prelude("err", "log", "stdx", "time", "titer2")
+    u.prelude("err", "log", "stdx", "time", "titer2", "env_shims")
     for cst in ["DEFAULT_ACCOUNTS_DIR", "DEFAULT_CERT_DIR", "DEFAULT_CERT_FORMAT", "DEFAULT_CERT_FILE_MODE",
                 "DEFAULT_CERT_RANDOM_EARLY_RENEW", "DEFAULT_CERT_RENEW_DELAY", "DEFAULT_PK_FILE_MODE",
                 "DEFAULT_HOOK_ALLOW_FAILURE"]:
@@ -325,6 +348,7 @@ pub fn parse_duration(input: &str) -> (r: Result<Duration, Error>)
     ensures r matches Ok(e) ==> strs(e.root_certificates@) =~= strs(root_certs@) && e.name@ == name@ && e.url@ == url@ && e.tos_agreed == tos_agreed && e.nonce is None, //@C18.endpoint_keeps_the_root_list
 """)})
     u.verify(C, "get_stdin", "config", props=["C10"], fns={"get_stdin": c.pop("get_stdin")})
+    u.verify(C, "dispatch_global_env_vars", "config", props=["C10"], fns={"dispatch_global_env_vars": c.pop("dispatch_global_env_vars")})
     for key, fs in c.items():
         ty, fn = key.split("::") if "::" in key else ("", key)
         if "::" not in key:
@@ -540,6 +564,10 @@ pub open spec fn merged_env(a: Option<GlobalOptions>, b: Option<GlobalOptions>, 
 pub open spec fn merged_renewal(a: Option<GlobalOptions>, b: Option<GlobalOptions>, m: Option<GlobalOptions>) -> bool {
     match (a, b) { (Some(x), Some(y)) => m matches Some(z) && z.random_early_renew == later(x.random_early_renew, y.random_early_renew)
         && z.renew_delay == later(x.renew_delay, y.renew_delay), _ => true }
+}
+// the [global] environment (empty when there is no [global] section)
+pub open spec fn global_env_of(c: Config) -> Map<Seq<char>, Seq<char>> {
+    match c.global { Some(g) => crate::venv::envmap(g.env), None => Map::<Seq<char>, Seq<char>>::empty() }
 }
 // ---- hook and group resolution
 pub open spec fn first_hook(cnf: Config, name: Seq<char>, i: int) -> bool {
